@@ -384,6 +384,11 @@ impl<'a, 'c> SDriver<'a, 'c> {
         loop {
             if steps >= budget { cx.probe("stopped_mid_stream"); return Ok(()); }
             steps += 1;
+            if self.c18 && cx.ch.chance(1, 6) {
+                // rejected selections at arbitrary moments, including mid-record: must change nothing
+                if !self.p.is_record_boundary() { cx.probe("rejected_selection_mid_record"); }
+                try_illegal(cx, self)?;
+            }
             let (_, end, progress) = self.random_action(cx, oracle)?;
             if end || self.saw_end {
                 // drain what is buffered so that "delivered" is complete
@@ -508,7 +513,7 @@ fn cx_dest(cx: &mut Ctx) -> usize {
 pub const D1S_PROBES: &[&str] = &[
     "record_65535", "noncompliant_order", "payload_moved_with_parsed_nonempty", "held_back_header_seen",
     "dest_len_zero", "compress_with_stream_data", "stopped_mid_stream", "into_input_checked", "abort_in_stream",
-    "early_advance", "rejected_selection", "lookahead_at_handoff", "handoff_full_buffer", "chain_requests_2plus",
+    "early_advance", "rejected_selection", "rejected_selection_mid_record", "fed_after_done", "lookahead_at_handoff", "handoff_full_buffer", "chain_requests_2plus",
     "exact_fill_read", "noise_getvalues", "noise_unknown_type", "noise_foreign_begin", "noise_stale_params", "noise_huge_record",
 ];
 
@@ -553,6 +558,22 @@ pub fn handoff<'c>(
     let d = drive_request(cx, &mut rp, wire, pos, &opts, "c04_reply_stream")?;
     vcheck!(d.done, "c01_not_done", "request parser did not finish a complete preamble (fed {})", d.fed);
     vcheck!(d.output == expect_out, "c04_reply_stream", "preamble replies {} expected {}", hex(&d.output), hex(expect_out));
+    // a driver may hand further reads to the parser after `done` (read-ahead): they must simply be kept
+    for _ in 0..2 {
+        if *pos < cap && cx.ch.chance(1, 4) {
+            let space = rp.input_buffer().len();
+            let k = chunk(cx, style, space, cap - *pos);
+            rp.input_buffer()[..k].copy_from_slice(&wire[*pos..*pos + k]);
+            *pos += k;
+            cx.probe("fed_after_done");
+            cx.ev("feed_after_done", k as u64, 0);
+            let rpm = &mut rp;
+            match guard(|| { let y = rpm.parse(k); (y.done, y.output.len()) }) {
+                Ok((done, out)) => vcheck!(done && out == 0, "c03_final_not_sticky", "parse() after done returned done={done} with {out} output bytes"),
+                Err(p) => vfail!("panic", "request::Parser::parse", "call after done: {p}"),
+            }
+        }
+    }
     match guard(move || rp.into_stream_parser()) {
         Ok(Ok(sp)) => Ok((sp, d.output)),
         Ok(Err(e)) => vfail!("c01_result", "", "into_stream_parser failed: {}", err_name(&e)),
